@@ -151,6 +151,8 @@ pub enum RTy {
     Enum,
     /// returns its first pointer-to-scalar argument (or a static when there is none)
     Ptr,
+    /// returns a callback: `int (*f(..))(int, double)`
+    FnPtr,
 }
 
 #[derive(Clone, Debug, Serialize, Deserialize, PartialEq, Eq)]
@@ -174,6 +176,12 @@ pub struct Lib {
     pub structs: Vec<StructDef>,
     pub funcs: Vec<Func>,
     pub globals: Vec<(Sc, bool)>,
+    /// global arrays: (element, two-dimensional, const)
+    #[serde(default)]
+    pub garrays: Vec<(Sc, bool, bool)>,
+    /// `int g_defined = 3;` in the header: a known finding (emitted as a constant); only replays set it
+    #[serde(default)]
+    pub defined_global: bool,
 }
 
 #[derive(Clone, Debug, Serialize, Deserialize)]
@@ -342,6 +350,7 @@ impl Lib {
             RTy::Struct(k) => self.stype(*k as usize),
             RTy::Enum => "enum Color".into(),
             RTy::Ptr => "const int *".into(),
+            RTy::FnPtr => "int (*".into(),
         }
     }
     pub fn proto(&self, k: usize) -> String {
@@ -352,6 +361,9 @@ impl Lib {
         }
         if ps.is_empty() {
             ps.push("void".into());
+        }
+        if f.ret == RTy::FnPtr {
+            return format!("{}int (*{}({}))(int, double)", if f.ms_abi { "__attribute__((ms_abi)) " } else { "" }, self.fname(k), ps.join(", "));
         }
         format!("{}{}{} {}({})", if f.noreturn { "__attribute__((noreturn)) " } else { "" }, if f.ms_abi { "__attribute__((ms_abi)) " } else { "" }, self.c_ret(&f.ret), self.fname(k), ps.join(", "))
     }
@@ -426,6 +438,7 @@ impl Lib {
                 RTy::Sc(sc) => s.push_str(&format!("  return {};\n", sc.c_from("h"))),
                 RTy::Enum => s.push_str("  return (h & 1) ? GREEN : BLUE;\n"),
                 RTy::Ptr => s.push_str("  return firstp;\n"),
+                RTy::FnPtr => s.push_str("  return (h & 1) ? lib_cb_odd : lib_cb_even;\n"),
                 RTy::Struct(t) => {
                     s.push_str(&format!("  {} r; __builtin_memset(&r, 0, sizeof r);\n", self.stype(*t as usize)));
                     for (j, (path, sc)) in self.leaves(*t as usize).iter().enumerate() {
@@ -443,7 +456,7 @@ impl Lib {
     pub const HELPERS: &'static str = "#define step(h, v) (((unsigned long long)(h) ^ (unsigned long long)(v)) * 1099511628211ULL)\n#define fbits(f) ((unsigned long long)__builtin_bit_cast(unsigned int, (float)(f)))\n#define dbits(d) (__builtin_bit_cast(unsigned long long, (double)(d)))\n";
 
     pub fn header(&self) -> String {
-        let mut s = String::from("#ifndef LIB_H\n#define LIB_H\nenum Color { RED, GREEN = 5, BLUE = -2 };\ntypedef int cb_fn_t(int, double);\n");
+        let mut s = String::from("#ifndef LIB_H\n#define LIB_H\nenum Color { RED, GREEN = 5, BLUE = -2 };\ntypedef int cb_fn_t(int, double);\n#ifdef __cplusplus\nextern \"C\" {\n#endif\nint lib_cb_odd(int a, double b);\nint lib_cb_even(int a, double b);\n#ifdef __cplusplus\n}\n#endif\n");
         for sc in Sc::ALL {
             s.push_str(&format!("typedef {} td_{};\n", sc.c(), sc.c().replace(' ', "_")));
         }
@@ -462,6 +475,12 @@ impl Lib {
         for (k, (sc, is_const)) in self.globals.iter().enumerate() {
             s.push_str(&format!("extern {}{} gv{k};\n{} read_gv{k}(void);\n", if *is_const { "const " } else { "" }, sc.c(), sc.c()));
         }
+        for (k, (sc, two_d, is_const)) in self.garrays.iter().enumerate() {
+            s.push_str(&format!("extern {}{} ga{k}{};\n", if *is_const { "const " } else { "" }, sc.c(), if *two_d { "[2][3]" } else { "[4]" }));
+        }
+        if self.defined_global {
+            s.push_str("int g_defined = 3;\n");
+        }
         for k in 0..self.funcs.len() {
             s.push_str(&self.proto(k));
             s.push_str(";\n");
@@ -478,6 +497,13 @@ impl Lib {
             let init = sc.c_from(&format!("{}ULL", 0x1234_5678_9abc_def0u64.wrapping_mul(k as u64 + 3)));
             // initialisers must be constant expressions: the formula only uses casts and arithmetic
             s.push_str(&format!("{}{} gv{k} = {init};\n{} read_gv{k}(void) {{ return gv{k}; }}\n", if *is_const { "const " } else { "" }, sc.c(), sc.c()));
+        }
+        s.push_str("int lib_cb_odd(int a, double b) { return a * 5 + (int)b; }\nint lib_cb_even(int a, double b) { return a * 7 - (int)b; }\n");
+        for (k, (sc, two_d, is_const)) in self.garrays.iter().enumerate() {
+            let n = if *two_d { 6 } else { 4 };
+            let vals: Vec<String> = (0..n).map(|j| sc.c_from(&format!("{}ULL", 0x0123_4567_89ab_cdefu64.wrapping_mul((k * 7 + j + 1) as u64)))).collect();
+            let init = if *two_d { format!("{{{{{}}}, {{{}}}}}", vals[..3].join(", "), vals[3..].join(", ")) } else { format!("{{{}}}", vals.join(", ")) };
+            s.push_str(&format!("{}{} ga{k}{} = {init};\n", if *is_const { "const " } else { "" }, sc.c(), if *two_d { "[2][3]" } else { "[4]" }));
         }
         for k in 0..self.funcs.len() {
             s.push_str(&self.proto(k));
@@ -504,12 +530,12 @@ pub fn lib_strategy() -> BoxedStrategy<Lib> {
         1 => Just(PTy::CallbackFactory),
         1 => Just(PTy::CallbackTypedef),
     ];
-    let rty = prop_oneof![2 => Just(RTy::Void), 6 => sc.clone().prop_map(RTy::Sc), 4 => any::<u16>().prop_map(RTy::Struct), 1 => Just(RTy::Enum), 1 => Just(RTy::Ptr)];
+    let rty = prop_oneof![2 => Just(RTy::Void), 6 => sc.clone().prop_map(RTy::Sc), 4 => any::<u16>().prop_map(RTy::Struct), 1 => Just(RTy::Enum), 1 => Just(RTy::Ptr), 1 => Just(RTy::FnPtr)];
     let func = (proptest::collection::vec(pty, 0..9), rty, proptest::option::weighted(0.12, 0u8..7), proptest::bool::weighted(0.03), proptest::option::weighted(0.12, any::<u8>()), proptest::bool::weighted(0.15), proptest::bool::weighted(0.15))
         .prop_map(|(params, ret, variadic, noreturn, awkward_name, keyword_params, ms_abi)| Func { params, ret, variadic, noreturn, awkward_name, keyword_params, ms_abi });
-    (proptest::collection::vec(sdef, 1..6), proptest::collection::vec(func, 1..16), proptest::collection::vec((sc, any::<bool>()), 0..5))
-        .prop_map(|(structs, funcs, globals)| {
-            let mut l = Lib { structs, funcs, globals };
+    (proptest::collection::vec(sdef, 1..6), proptest::collection::vec(func, 1..16), proptest::collection::vec((sc.clone(), any::<bool>()), 0..5), proptest::collection::vec((sc, any::<bool>(), any::<bool>()), 0..3))
+        .prop_map(|(structs, funcs, globals, garrays)| {
+            let mut l = Lib { structs, funcs, globals, garrays, defined_global: false };
             l.normalise();
             l
         })
@@ -595,6 +621,29 @@ impl C04 {
                 }
             }
             s.push_str("  }\n");
+        }
+        for (k, (sc, two_d, is_const)) in lib.garrays.iter().enumerate() {
+            let Some(g) = find_fn(inv, &format!("ga{k}")) else {
+                problems.push(("binding-missing/global".into(), format!("no binding for array ga{k}")));
+                continue;
+            };
+            if g.mutable == *is_const {
+                problems.push(("global-mutability".into(), format!("ga{k} ({}): const = {is_const}, binding mutable = {}", if *two_d { "two-dimensional array" } else { "array" }, g.mutable)));
+            }
+            let gname = crate::probe::raw_ident(&g.name);
+            let n = if *two_d { 6 } else { 4 };
+            for j in 0..n {
+                let want = sc.rust_from(&format!("{}u64", 0x0123_4567_89ab_cdefu64.wrapping_mul((k * 7 + j + 1) as u64)));
+                let idx = if *two_d { format!("[{}][{}]", j / 3, j % 3) } else { format!("[{j}]") };
+                s.push_str(&format!("  {{ let want: {} = {want}; let got: {} = unsafe {{ {gname}{idx} }}; if {} != {} {{ bad += 1; println!(\"BAD global ga{k} element\"); }} }}\n", sc.rust(), sc.rust(), sc.rust_canon("want"), sc.rust_canon("got")));
+            }
+        }
+        if lib.defined_global {
+            match inv.items.iter().find(|i| i.name == "g_defined") {
+                Some(i) if i.kind == "foreign_static" && i.mutable => {}
+                Some(i) => problems.push(("global-mutability/defined-in-header".into(), format!("`int g_defined = 3;` is a mutable global; the bindings have {} `{}`", i.kind, i.text.chars().take(80).collect::<String>()))),
+                None => problems.push(("binding-missing/global".into(), "no binding for g_defined".into())),
+            }
         }
         // functions
         for (k, f) in lib.funcs.iter().enumerate() {
@@ -745,6 +794,7 @@ impl C04 {
                     RTy::Void => {}
                     RTy::Sc(sc) => s.push_str(&format!("    {{ let want: {} = {}; let got: {} = r; if {} != {} {{ bad += 1; println!(\"BAD {cname} round {round} return value\"); }} }}\n", sc.rust(), sc.rust_from("h"), sc.rust(), sc.rust_canon("want"), sc.rust_canon("got"))),
                     RTy::Enum => s.push_str(&format!("    {{ let want: i64 = if h & 1 == 1 {{ 5 }} else {{ -2 }}; if (r as i64) != want && (r as u32 as i32 as i64) != want {{ bad += 1; println!(\"BAD {cname} round {round} return value\"); }} }}\n")),
+                    RTy::FnPtr => s.push_str(&format!("    {{ let want: ::std::os::raw::c_int = if h & 1 == 1 {{ 9 * 5 + 2 }} else {{ 9 * 7 - 2 }}; let got = unsafe {{ (r.expect(\"returned callback\"))(9, 2.5) }}; if got != want {{ bad += 1; println!(\"BAD {cname} round {round} returned callback\"); }} }}\n")),
                     RTy::Ptr => match &first_const_int_ptr {
                         Some(a) => s.push_str(&format!("    if r != (&{a} as *const ::std::os::raw::c_int) {{ bad += 1; println!(\"BAD {cname} round {round} returned pointer\"); }}\n")),
                         None => s.push_str(&format!("    if r.is_null() || unsafe {{ *r }} != 77 {{ bad += 1; println!(\"BAD {cname} round {round} returned pointer\"); }}\n")),
